@@ -222,6 +222,12 @@ rv('P', r'^write::line::LineProgram::generate_row \| panic\(debug_assert\) \| wh
 rv('P', r'^write::line::LineProgram::generate_row \| (Overflow\(Add\)|panic\(debug_assert\)) \| .*line_base (Add|AddWithOverflow) ', 'validator', 'LineProgram::new asserts line_base + line_range > 0 evaluated the same way')
 rv('P', r'^write::line::LineProgram::new \| panic\(assert\) \| when \(line_encoding.line_base Le 0\)', 'validator',
    'the converter returns Err(InvalidLineBase) for line_base > 0 before constructing the program (demo line_convert_asserts.rs: not reproducible)')
+rv('P', r'^write::line::LineProgram::new \| panic\(assert\) \| when \(\(from\(', 'validator',
+   'documented `# Panics` (line_base + line_range <= 0); the converter returns Err(InvalidLineBase) on the same test before constructing the program',
+   [{'fn': "write::line::convert::ConvertLineProgram::<'a, R>::new", 'cmp': ['line_range(', 'const:0']}])
+rv('P', r'^write::line::LineProgram::generate_row \| panic\(debug_assert\) \| when \(\(from\(', 'validator',
+   'LineProgram::new asserts the stronger line_base + line_range > 0 on the same (non-wrapping) sum; line_encoding is not modified afterwards',
+   [{'fn': 'write::line::LineProgram::new', 'cmp': ['AddWithOverflow', 'const:0']}])
 rv('P', r'^write::line::LineProgram::add_directory \| panic\(assert\) \| when is_empty', 'invariant',
    'asserted only for version <= 4, where an empty include_directories entry terminates the list and therefore never reaches add_directory (demo: not reproducible)')
 # ---- known findings ------------------------------------------------------------------------
@@ -232,16 +238,12 @@ kf('T2', r'^read::aranges::ArangeEntryIter::<R>::next\|\?convert_raw', ['C01'],
 kf('T3', r'^write::op::convert::<impl write::op::Expression>::from$', ['C01', 'C12'],
    'Expression::from recurses once per nested DW_OP_entry_value / DW_OP_GNU_entry_value, so the recursion depth is chosen by the input (2 bytes per level); '
    'a few ten thousand levels overflow the stack during conversion', 'findings/demo/tests/expr_from_recursion.rs')
-kf('P', r'^write::cfi::convert::<impl write::cfi::CallFrameInstruction>::from \| Overflow', ['C01', 'C12'],
-   'write::cfi conversion multiplies/adds factored offsets, deltas and alignment factors from the input without overflow checks (source comment: "TODO: validate integer type conversions"); '
-   'e.g. DW_CFA_def_cfa_offset_sf with a large factored offset and data_alignment_factor -8 panics with overflow checks on', 'findings/demo/tests/cfi_convert_overflow.rs')
-kf('P', r'^write::line::LineProgram::new \| (Overflow\(Add\)|panic\(assert\) \| when \(\(line_encoding.line_base AddWithOverflow)', ['C01', 'C12'],
-   'converting a line program whose header has line_base + line_range (as i8) <= 0 or overflowing i8 (e.g. line_base -5 / line_range 200, or -128 / 255) hits the assert! / the overflow check '
-   'in write::LineProgram::new instead of returning an error', 'findings/demo/tests/line_convert_asserts.rs')
+# write::cfi::convert overflow / truncation findings: repaired in /repo d6ffc7a; no suppression
+# LineProgram::new assert/overflow reached from conversion: repaired in /repo 6c95e08; no suppression
 kf('P', r'^write::line::LineProgram::add_file \| panic\(assert\) \| when is_empty', ['C01', 'C12'],
    'converting a DWARF <= 4 line program with a DW_LNE_define_file whose name is empty hits assert!(!val.is_empty()) in write::LineProgram::add_file',
    'findings/demo/tests/line_convert_asserts.rs')
-kf('P', r'^write::line::LineProgram::(generate_row|op_advance) \|', ['C01', 'C12'],
+kf('P', r'^write::line::LineProgram::(generate_row|op_advance) \| (?!panic\(debug_assert\) \| when \(\(from\()', ['C01', 'C12'],
    'write::LineProgram::op_advance / generate_row do unchecked arithmetic on address offsets, operation indices, line deltas and the line encoding taken from the converted program '
    '(address_advance * maximum_operations_per_instruction, op_advance * line_range, ...); reached from ConvertLineProgram::convert with values chosen by the input, e.g. two '
    'DW_LNS_advance_pc of u64::MAX with maximum_operations_per_instruction 255', 'findings/demo/tests/line_convert_op_advance.rs')
@@ -278,10 +280,7 @@ rv('N', r'^write::line::LineProgram::write \| cast i8->u8 \| self.line_encoding.
 rv('N', r'^write::(loc::LocationListTable|range::RangeListTable)::write_(loc|ranges) \| cast u64->i64 \| length as i64', 'reinterpret', REINT + 'length added to a symbol addend (i64) with wrapping semantics; Address::Constant uses wrapping_add on u64')
 rv('N', r'^write::op::Operation::write \| cast usize->i64', 'invariant', 'byte offsets inside one expression (bounded by the size of the Vec holding it, < 2^63); the i64 difference is range-checked by write_sdata(.., 2)')
 rv('N', r'^write::relocate::<impl write::writer::Writer for T>::write_offset(_at)? \| cast usize->i64 \| val as i64', 'reinterpret', REINT + 'section offset stored as the addend of the recorded relocation')
-kf('N', r'^write::cfi::convert::', ['C12', 'C01'],
-   'write::cfi conversion narrows operands with plain `as i32` / `as u32` / `as u8` / `as i8` casts ("TODO: validate integer type conversions"): e.g. DW_CFA_def_cfa_offset 0x1_0000_0020 '
-   'is converted to a CFA offset of 32 without any error (silent truncation)', 'findings/demo/tests/cfi_convert_truncation.rs')
-kf('N', r'^write::line::LineProgram::(generate_row|new) \|', ['C12', 'C01'],
+kf('N', r'^write::line::LineProgram::generate_row \|', ['C12', 'C01'],
    'same defect family as the P findings on write::LineProgram::generate_row / new: line deltas and the line encoding are cast between signed and unsigned without validation when reached from conversion',
    'findings/demo/tests/line_convert_op_advance.rs')
 
